@@ -52,13 +52,17 @@ def tasks(tier):
     ts = []
     for flags in itertools.product([True, False], repeat=3):
         for (m, f) in ((3, 1), (2, 2)):
-            ts.append({"name": f"load:{m}x{f}:inf={flags[0]}:impute={flags[1]}:rmnan={flags[2]}", "fn": "t_load",
-                       "args": {"m": m, "f": f, "flags": list(flags), "kinds": KINDS}})
+            for first in (KINDS if (m, f) == (2, 2) else [None]):
+                ts.append({"name": f"load:{m}x{f}:inf={flags[0]}:impute={flags[1]}:rmnan={flags[2]}"
+                                   + (f":first={first}" if first else ""), "fn": "t_load", "max_decisions": 100000,
+                           "args": {"m": m, "f": f, "flags": list(flags), "kinds": KINDS, "first": first}})
     if tier == "thorough":
-        ts.append({"name": "load:3x2:all-flags", "fn": "t_load",
-                   "args": {"m": 3, "f": 2, "flags": [True, True, True], "kinds": ["v", "nan", "+inf"]}})
+        for first in ["v", "nan", "+inf"]:
+            ts.append({"name": f"load:3x2:all-flags:first={first}", "fn": "t_load", "max_decisions": 100000,
+                       "args": {"m": 3, "f": 2, "flags": [True, True, True], "kinds": ["v", "nan", "+inf"],
+                                "first": first}})
     ts.append({"name": "names:subset-order", "fn": "t_names", "args": {}})
-    ts.append({"name": "weights", "fn": "t_weights", "args": {"m": 3 if tier == "quick" else 4}, "max_paths": 20000,
+    ts.append({"name": "weights", "fn": "t_weights", "args": {"m": 3 if tier == "quick" else 4}, "max_paths": 20000, "max_decisions": 5000,
                "witnesses": ["weights"]})
     ts.append({"name": "weights:non-integer", "fn": "t_weights_nonint", "args": {}})
     ts.append({"name": "export", "fn": "t_export", "args": {"n": 3}, "witnesses": ["exported"]})
@@ -115,7 +119,7 @@ def _spec(cells, resp, zero, flags):
     return rows, [resp[r] for r in keep], None
 
 
-def t_load(m, f, flags, kinds):
+def t_load(m, f, flags, kinds, first=None):
     w = _world()
     rmod = w.modules["nanite.rate.rater"]
     IR = rmod.IndentationRater
@@ -124,6 +128,8 @@ def t_load(m, f, flags, kinds):
     req = list(reversed(names))
     done = 0
     for kp in itertools.product(kinds, repeat=m * f):
+        if first is not None and kp[0] != first:
+            continue
         for zp in itertools.product([True, False], repeat=m):
             tag = f"{done}"
             cells = [[_cell(kp[r * f + c], f"v{tag}_{r}_{c}") for c in range(f)] for r in range(m)]
